@@ -558,6 +558,13 @@ def check_style(fg, bg, attrs):
             seen = other.format(tagged) if way.startswith("other-plain") else strip_sgr(other.format(tagged))
             if "s0>" not in seen:
                 out.append(("b:style-leaked-to:" + way, "a style added to one formatter is applied by another formatter object", tagged, seen))
+        # 2d. added through the formatter of an I/O that was built with its defaults: both of its outputs know the style
+        bio = BufferedIO()
+        bio.formatter.add_style(make_style("s0", fg, bg, attrs))
+        bio.write(tagged)
+        plain_case("add_style>BufferedIO().write", bio.fetch_output())
+        bio.error(tagged)
+        plain_case("add_style>BufferedIO().error", bio.fetch_error())
         # 2c. added under a tag that the formatter's style set already defines (the caller's style replaces it), on a
         #     formatter that has not formatted anything yet, and again after it has
         from clikit.formatter import DefaultStyleSet
@@ -862,7 +869,11 @@ def part_c(rep):
         v = run_switch_case(c)
         if v:
             rep.violation(v)
-    rep.part("c2_decoration_switched_off", cases=len(sw), operations=SWITCH_OPS,
+    for c in (["stream-swap", "tty->pipe"], ["stream-swap", "pipe->tty"]):
+        v = run_stream_swap_case(c)
+        if v:
+            rep.violation(v)
+    rep.part("c2_decoration_switched_off", cases=len(sw) + 2, operations=SWITCH_OPS,
              what="content written while decorated, formatter then replaced by a plain one: no escape byte afterwards")
     eps = sorted({"%s.%s" % (c[0], c[2]) for c in cs})
     rep.part("c_line_methods", cases=len(cs), entry_points=eps, texts=[t[0] for t in C_TEXTS], calls=[1, 2])
@@ -873,6 +884,35 @@ def part_c(rep):
 # (c2) decoration switched off on a live receiver: content was written while the output was decorated, then the formatter is
 # replaced by a plain one (what --no-ansi handling does to an I/O that already exists); from then on not one escape byte
 SWITCH_OPS = ["write_line", "overwrite", "clear", "clear1", "write_line_raw"]
+
+
+def run_stream_swap_case(case):
+    """case = ["stream-swap", direction]: an output with an (unforced) AnsiFormatter whose stream is replaced: what it writes
+    afterwards follows the abilities of the stream it has NOW"""
+    from clikit.api.io import Output
+    from clikit.formatter import AnsiFormatter
+    from clikit.io.output_stream import BufferedOutputStream
+
+    class Tty(BufferedOutputStream):
+        def supports_ansi(self):
+            return True
+
+    first, second = (Tty(), BufferedOutputStream()) if case[1] == "tty->pipe" else (BufferedOutputStream(), Tty())
+    try:
+        o = Output(first, AnsiFormatter())
+        o.write_line("<b>one</b>")
+        o.set_stream(second)
+        o.write_line("<b>two</b>")
+    except Exception as e:
+        return report.viol("c2:crash:" + report.exc_site(e), "%r raised %r" % (case, e), case)
+    got = second.fetch()
+    if case[1] == "tty->pipe" and got != "two\n":
+        return report.viol("c2:stream-swap:esc-on-stream-without-ansi", "after set_stream() to a stream without ANSI support the output still decorates",
+                           case, "two\n", got)
+    if case[1] == "pipe->tty" and (strip_sgr(got) != "two\n" or "\x1b[" not in got):
+        return report.viol("c2:stream-swap:plain-on-ansi-stream", "after set_stream() to an ANSI-capable stream the output does not decorate", case,
+                           "ESC[1mtwo ESC[0m", got)
+    return None
 
 
 def run_switch_case(case):
@@ -921,6 +961,8 @@ def switch_cases():
 def replay_c(case):
     if isinstance(case, list) and case and case[0] == "switch":
         return run_switch_case(case)
+    if isinstance(case, list) and case and case[0] == "stream-swap":
+        return run_stream_swap_case(case)
     return run_line_case(case["case"] if isinstance(case, dict) and "case" in case else case)
 
 
